@@ -249,7 +249,7 @@ fn driver(i: &GIface, k: usize) -> String {
         }
         writeln!(w, "    let outputs: Vec<(&'static str, Ty)> = {};", fields_expr(outputs)).unwrap();
         writeln!(w, "    let scripted = script_reply({:?}, &outputs, &errors(), &types, rng);", i.name).unwrap();
-        writeln!(w, "    let wire = new_wire(0);\n    wire.borrow_mut().push(Rx::Bytes(scripted.frame.clone()));\n    let mut conn = Connection::new(VSocket(wire.clone()));").unwrap();
+        writeln!(w, "    let wire = new_wire(0);\n    let mut conn = Connection::new(VSocket(wire.clone()));\n    let ctx = &with_history(ctx, warm_up(&mut conn, &wire, rng));\n    wire.borrow_mut().push(Rx::Bytes(scripted.frame.clone()));").unwrap();
         let args: Vec<String> = (0..inputs.len()).map(|ai| format!("arb(&a{ai})?")).collect();
         writeln!(w, "    let got = vnet::catch(|| -> Result<String, String> {{").unwrap();
         writeln!(w, "        Ok(match vnet::block_on(conn.{}({}), 8) {{", rust_ident(&snake(name)), args.join(", ")).unwrap();
